@@ -22,6 +22,7 @@ RULE = ("a registry of public array-taking calls (record-file writers binary/tex
         "argument that forces an internal conversion (non-native, non-contiguous, f4 or integer, or a structured "
         "table in big-endian order). Distinct = distinct case JSON."
         " Arrays built from esutil results and handed on (precomputed htm ids / reverse indices) are watched as well; text writers are also run with padnull/ignorenull and after a native table was written through the same handle; wcsutil.wrap_ra_diff is part of the registry.")
+RULE += (" " + 'Also: for calls with registered edge values (radii 180/181/200 deg, NaN/inf flags, longitudes outside [0,360), latitudes +-90, RA differences of +-180/540) every second case plants up to three of them into the floating-point argument.')
 ASSUMPTIONS = [
     "arguments documented as modified (copy_fields target, copy_fields_by_name target, inplace=True, the in-place "
     "sorts) are not snapshotted",
